@@ -6,8 +6,8 @@
 
    Mirrors, as they are:
      ford/fortran_project.py  find_all_files (returns a set of paths), Project.__init__ (iterates
-                              that set; every project-level list is therefore in enumeration
-                              order), Project.correlate (toposort_flatten over sets of module
+                              sorted(that set) since 80d6c91; every project-level list is therefore
+                              in the sorted order of the absolute paths), Project.correlate (toposort_flatten over sets of module
                               objects, the ranklist / prune loops), Project.markdown
      ford/sourceform.py       FortranBase.ident -> NameSelector.get_name (Out/Names.v): first
                               come, first served numbering "name", "name~2", ...;
@@ -16,7 +16,7 @@
                               index renders every page), Documentation.writeout (remove the
                               output directory, then write)
      ford/graphs.py           add_to_graph: "for n in sorted(nodes)"; InheritedByGraph.add_node:
-                              "for c in node.children" (a set, unsorted)
+                              "for c in sorted(node.children)" since c3c7c8e
 
    A run is a sequence of phases.  A [ByFile k] phase is a loop over something that is in file
    enumeration order; what one file contributes to it (its k-th segment: the get_name requests
@@ -109,13 +109,29 @@ Definition file_reqs (f : pfile) : list req := concat (f_segs f).
 Definition all_reqs (P : project) : list req := flat_map file_reqs (p_files P) ++ concat (p_sets P).
 Definition ent_ids (P : project) : list nat := nodup Nat.eq_dec (map r_id (all_reqs P)).
 
-(* THE function of (files, pi[, sigma]): the identifier of every entity *)
+(* "for filename in sorted(find_all_files(settings))": pathlib paths compare as the lists of their
+   components *)
+Definition file_leb (a b : pfile) : bool := path_leb (f_path a) (f_path b).
+
+(* THE function of (files, pi, sigma): the identifier of every entity.  pi is the iteration order
+   of the set find_all_files returns; Project.__init__ sorts it before parsing. *)
 Definition idents_enum (P : project) (enum : list pfile) (sets : list (list req))
   : list (nat * option str) :=
   let st := final_state enum sets in map (fun id => (id, ident_in st id)) (ent_ids P).
 
 Definition idents (P : project) (pi : list nat) (sigma : list (list nat)) : list (nat * option str) :=
+  idents_enum P (isort file_leb (enumerate (p_files P) pi)) (enum_sets (p_sets P) sigma).
+
+(* the pipeline before 80d6c91 (the set was iterated as it came): kept to state what the fix repaired *)
+Definition idents_unsorted (P : project) (pi : list nat) (sigma : list (list nat))
+  : list (nat * option str) :=
   idents_enum P (enumerate (p_files P) pi) (enum_sets (p_sets P) sigma).
+
+(* the same project somewhere else: every path gains the prefix [root] *)
+Definition relocate_file (root : list str) (f : pfile) : pfile :=
+  {| f_path := root ++ f_path f; f_segs := f_segs f |}.
+Definition relocate (root : list str) (P : project) : project :=
+  {| p_files := map (relocate_file root) (p_files P); p_sets := p_sets P |}.
 
 (* ------------------------------------------------------------------ clashes *)
 
@@ -132,14 +148,17 @@ Definition pair_ok (a b : req) : bool :=
 Definition no_clash_list (rs : list req) : bool := forallb (fun a => forallb (pair_ok a) rs) rs.
 Definition no_clashb (P : project) : bool := no_clash_list (all_reqs P).
 
-(* ------------------------------------------------------------------ the repair candidate *)
+(* one request per entity: equal ids, equal requests *)
+Definition consistentb (P : project) : bool :=
+  forallb (fun a => forallb (fun b => if Nat.eqb (r_id a) (r_id b) then req_eqb a b else true) (all_reqs P))
+          (all_reqs P).
 
-(* "for filename in sorted(find_all_files(settings))" *)
-Definition file_leb (a b : pfile) : bool := path_leb (f_path a) (f_path b).
-
-Definition idents_sorted (P : project) (pi : list nat) (sigma : list (list nat))
-  : list (nat * option str) :=
-  idents_enum P (isort file_leb (enumerate (p_files P) pi)) (enum_sets (p_sets P) sigma).
+(* the region of the partial theorem: no entity that is requested in a set-ordered phase competes
+   with another entity for a NameSelector counter (e.g. no two modules of one name) *)
+Definition sets_isolatedb (P : project) : bool :=
+  forallb (fun sr => forallb (fun r => if key_eqb (name_key r) (name_key sr)
+                                     then Nat.eqb (r_id r) (r_id sr) else true) (all_reqs P))
+          (concat (p_sets P)).
 
 (* ------------------------------------------------------------------ other sets that reach the output *)
 
@@ -153,9 +172,14 @@ Definition shown_uses (uses : list str) (pi : list nat) : list str := enumerate 
 Definition emit_nodes (node_idents : list str) (pi : list nat) : list str :=
   isort str_leb (enumerate node_idents pi).
 
-(* InheritedByGraph.add_node: "for c in node.children: hop_edges.append(_solid_edge(c, node))";
-   children is a set of nodes hashed by hash(ident): edges are emitted in set order *)
+(* InheritedByGraph.add_node: "for c in sorted(node.children): hop_edges.append(_solid_edge(c, node))";
+   children is a set of nodes hashed by hash(ident) *)
 Definition emit_child_edges (parent : str) (children : list str) (pi : list nat) : list (str * str) :=
+  map (fun c => (c, parent)) (isort str_leb (enumerate children pi)).
+
+(* before c3c7c8e: in set order *)
+Definition emit_child_edges_unsorted (parent : str) (children : list str) (pi : list nat)
+  : list (str * str) :=
   map (fun c => (c, parent)) (enumerate children pi).
 
 (* ------------------------------------------------------------------ writeout *)
